@@ -12,7 +12,7 @@ import json
 import os
 import random
 
-from . import common, grammar_common as gc
+from . import common, grammar_common as gc, grammar_reps
 from .common import log
 
 LAYOUTS = {"quick": 3, "thorough": 6}
@@ -174,6 +174,7 @@ def run(rep, tier, seed, selftest):
     trace_pool = []
     swap_target = None
     kinds = {}
+    reps = {}
     n_obs = 0
     with open(obs_path) as f:
         for case, line in zip(gc.iter_cases(d["cases_path"]), f):
@@ -184,6 +185,7 @@ def run(rep, tier, seed, selftest):
             if obs["id"] != case["id"]:
                 raise common.ToolError("replay output out of order")
             compare_case(case, obs, k, fnd, stats, rep)
+            grammar_reps.measure(case, reps)
             ck = gc.node_kinds(case["tree"])
             for kk, vv in ck.items():
                 kinds[kk] = kinds.get(kk, 0) + vv
@@ -200,6 +202,9 @@ def run(rep, tier, seed, selftest):
                     swap_target = (case, obs, t)
     if n_obs != total:
         raise common.ToolError("replay returned %d observations for %d cases" % (n_obs, total))
+    shallow = grammar_reps.missing(reps)
+    if shallow:
+        raise common.ToolError("vacuity: repetitions not reached by the exhaustive derivation (have, need): %s" % shallow)
     log("[replay] %d modules x %d layouts through both parsers: %d second-generation trees equal to the specification's, "
         "%d three-way equal, %d panics" % (total, k, stats["delta_tree_equal"], stats["three_way_equal"], stats["delta_panics"]))
     # ---- 2. corpus: first- vs second-generation tree ----------------------------------------------------------
@@ -280,6 +285,8 @@ def run(rep, tier, seed, selftest):
         "production_coverage": d["coverage"],
         "productions_never_applied": missing,
         "node_kinds_derived": kinds,
+        "repetitions_reached": reps,
+        "repetitions_required": grammar_reps.REQUIRED,
         "second_generation_trees_equal_to_spec": stats["delta_tree_equal"],
         "three_way_equal": stats["three_way_equal"],
         "second_generation_panics": stats["delta_panics"],
